@@ -493,7 +493,7 @@ def split_top(s):
 def cfg_atoms(cfg):
     if cfg is None:
         return frozenset()
-    cfg = "".join(cfg.split())
+    cfg = squash_ws(cfg)
     if cfg.startswith("all(") and cfg.endswith(")"):
         out = set()
         for p in split_top(cfg[4:-1]):
@@ -1257,7 +1257,25 @@ def canon_mir(m):
 
 
 def squash_ws(s):
-    return "".join(s.split()) if isinstance(s, str) else s
+    """whitespace between tokens removed; inside a string literal it is part of the token and stays"""
+    if not isinstance(s, str):
+        return s
+    out, in_str, esc = [], False, False
+    for c in s:
+        if in_str:
+            out.append(c)
+            if esc:
+                esc = False
+            elif c == "\\":
+                esc = True
+            elif c == '"':
+                in_str = False
+        elif c == '"':
+            in_str = True
+            out.append(c)
+        elif not c.isspace():
+            out.append(c)
+    return "".join(out)
 
 
 RULES["C16"] = ("abstract definitions in the fragment all four syntaxes express (whole devices: nesting, repeats, refs with "
